@@ -84,7 +84,7 @@ type ClientScenario struct {
 	Raw        bool  // DHCPv4 only: the client runs on nclient4.NewBroadcastUDPConn(<scripted conn>), the production stack (datagrams are IPv4/UDP frames)
 	Twin       bool  // a second client on its own connection has a call in flight with the SAME transaction id as call 0 and gets its own reply (serial 99): clients share nothing
 	Decoy      bool  // a second client with a different configuration is constructed (and closed) after the one under test
-	HWOpt      bool  // DHCPv4: the client is constructed for another hardware address and told its own through WithHWAddr
+	HWOpt      bool  // DHCPv4: the client is constructed for another hardware address and told its own through WithHWAddr; DHCPv6: constructed on another connection and given its own through WithConn
 	LogKind    int   // with Log: 0 the debug logger, 1 the summary logger, 2 a caller-supplied logger that prints every message (DHCPv4; DHCPv6 has none: summary)
 	Log        bool  // the client is configured with its debug logger (output discarded) and, for DHCPv6, with WithLogDroppedPackets
 	Bound      int
@@ -109,7 +109,7 @@ func (s *ClientScenario) String() string {
 		b.WriteString("(" + [...]string{"debug", "summary", "caller-supplied"}[s.LogKind] + " logger, dropped packets logged) ")
 	}
 	if s.HWOpt {
-		b.WriteString("(hardware address given by WithHWAddr) ")
+		b.WriteString("(hardware address given by WithHWAddr / connection given by WithConn) ")
 	}
 	if s.Raw {
 		b.WriteString("(over the raw broadcast connection) ")
@@ -464,6 +464,9 @@ func (s *ClientScenario) body(out **clientRun) func() {
 					m = nclient4.IsMessageType(dhcpv4.MessageTypeAck, shared4...)
 				}
 				r, err := cl.SendAndRead(ctx, dest, p, m)
+				if err != nil {
+					_ = err.Error() // rendering the error is part of using it
+				}
 				run.reqAfter[idx] = p.ToBytes()
 				if r == nil {
 					return -1, err
@@ -484,7 +487,13 @@ func (s *ClientScenario) body(out **clientRun) func() {
 					opts6 = append(opts6, nclient6.WithLogDroppedPackets(), quiet6(nclient6.WithSummaryLogger()))
 				}
 			}
-			cl, err := nclient6.NewWithConn(conn, clientMAC, opts6...)
+			var ctorConn net.PacketConn = conn
+			if s.HWOpt {
+				// DHCPv6: the connection the client uses comes from WithConn, not from the constructor
+				ctorConn = NewConn(&History{})
+				opts6 = append(opts6, nclient6.WithConn(conn))
+			}
+			cl, err := nclient6.NewWithConn(ctorConn, clientMAC, opts6...)
 			if err != nil {
 				panic(err)
 			}
@@ -558,6 +567,9 @@ func (s *ClientScenario) body(out **clientRun) func() {
 					m = nclient6.IsMessageType(dhcpv6.MessageTypeAdvertise, shared6...)
 				}
 				r, err := cl.SendAndRead(ctx, dest, p, m)
+				if err != nil {
+					_ = err.Error() // rendering the error is part of using it
+				}
 				run.reqAfter[idx] = p.ToBytes()
 				if r == nil {
 					return -1, err
